@@ -1,4 +1,5 @@
 import NucsProofs.Engine.MPProofs
+import NucsProofs.Engine.MPEndToEnd
 /-!
   C11 — the multiprocessing solver equals the sequential solver for every interleaving.
 
@@ -18,8 +19,15 @@ import NucsProofs.Engine.MPProofs
                          iff no worker found a solution, else a received solution of optimal value;
   * `C11_benign_timeouts` : queue time-outs that see every worker alive change nothing.
 
-  Together with C12 (the sub-problems partition the solution set) and C01/C02/C03 per worker, the
-  multiprocessing solver delivers what one sequential solver delivers.  That the operating system
+  END TO END (NucsProofs/Engine/MPEndToEnd.lean), composing the parent loop with C12 (the
+  sub-problems partition the solution set) and C02/C03 per worker:
+  * `C11_end_to_end_solve(_bc)` : if worker `i`'s stream is what the model's `solveAll` returns on
+    the `i`-th part of `splitProblem`, then for EVERY interleaving the parent ends normally and has
+    yielded a permutation of `L.map reported` with `L.Nodup`, `Sol P ⊆ L ⊆ SolW P`;
+    `C11_end_to_end_solve_sequential`: … a permutation of what the sequential `solveAll P cfg'`
+    returns, for any strategy `cfg'`;
+  * `C11_end_to_end_optimize(_bc/_sequential)` : the value kept by the parent is `none` iff `P` has
+    no solution and otherwise a solution of optimal objective value, equal to the sequential optimum.  That the operating system
   delivers SOME interleaving of the workers' streams is the trusted assumption.
 -/
 namespace Nucs
